@@ -80,6 +80,7 @@ static_assert(PO::IsModel<UserModel>, "UserModel must satisfy POMDP::IsModel");
 static_assert(!PO::IsModelEigen<UserModel>, "UserModel must take the generic branch");
 using DenseM = PO::Model<AI::MDP::Model>;
 using SparseM = PO::SparseModel<AI::MDP::SparseModel>;
+struct SparseRejected {};
 static_assert(PO::IsModelEigen<DenseM> && PO::IsModelEigen<SparseM>, "library models take the Eigen branch");
 
 // ---------------------------------------------------------------- generators
@@ -225,7 +226,10 @@ struct Models {
     std::unique_ptr<UserEigenModel> userEigen;
     explicit Models(Tables tt) : t(std::move(tt)) {
         dense.reset(new DenseM(t.O, t.Ob, t.S, t.A, t.T, t.R, t.discount));
-        sparse.reset(new SparseM(t.O, t.Ob, t.S, t.A, t.T, t.R, t.discount));
+        // the sparse setters validate what they actually store: a table whose dropped sub-threshold entries push a row
+        // outside the tolerance is (legitimately, property C06) rejected — such a case has no sparse path to compare
+        try { sparse.reset(new SparseM(t.O, t.Ob, t.S, t.A, t.T, t.R, t.discount)); }
+        catch (const std::invalid_argument &) { std::printf("#stat sparse_ctor_rejected 1\n"); throw SparseRejected(); }
         user.t = &t;
         userEigen.reset(new UserEigenModel(&t));
         // the converting constructors: user-defined -> dense -> sparse
@@ -412,7 +416,7 @@ static void runFixed(long idx) {
     emitHist(*M.userEigen, "usereigen", t, b0, rng, 4, true);
 }
 
-void verif::verif_case(Rng & rng, long idx, const std::string & tier) {
+static void verif_case_inner(Rng & rng, long idx, const std::string & tier) {
     if (idx < kFixed) { runFixed(idx); return; }
     const bool thorough = tier == "thorough";
     // stream: 70% dyadic (bit-exact), 20% ugly (non-dyadic, tolerance compare), 10% tiny (sub-threshold entries)
@@ -450,6 +454,10 @@ void verif::verif_case(Rng & rng, long idx, const std::string & tier) {
     emitHist(*M.sparse, "sparse", M.t, b0, r2, n, hexact);
     emitHist(M.user, "generic", M.t, b0, r3, n, hexact);
     emitHist(*M.userEigen, "usereigen", M.t, b0, r4, n, hexact);
+}
+
+void verif::verif_case(Rng & rng, long idx, const std::string & tier) {
+    try { verif_case_inner(rng, idx, tier); } catch (const SparseRejected &) {}
 }
 
 VERIF_MAIN
